@@ -401,8 +401,12 @@ impl DepthFirstSearch {
         if depth == 0 && !self.solutions.is_empty() {
             // Every solution found was rolled back to look for more: hand back the
             // facts of the first one, so that the goal holds in the facts returned
-            if let Some(snapshot) = self.first_solution_facts.take() {
-                facts.restore(snapshot);
+            // (not for a negated goal: finding a proof makes the negation fail, and a
+            // failed query must leave the facts untouched)
+            if !goal.is_negated {
+                if let Some(snapshot) = self.first_solution_facts.take() {
+                    facts.restore(snapshot);
+                }
             }
             goal.status = GoalStatus::Proven;
             // For negated goals, finding a proof means negation fails
